@@ -367,9 +367,10 @@ static void enumerate(void) {
 		for (long p = 257; p < 65536 && !vf_expired(); p += 2) {
 			mpz_set_si(sel, p); if (!mpz_probab_prime_p(sel, 20)) continue;
 			if (!vf_mine()) continue;
+			/* the case runs first: it selects the prime itself, so that a set-up that hangs or crashes is attributed to a replayable case */
+			K.op = "fp_consts"; K.n = 1; mpz_set(K.v[0], sel); vf_run(&K);
 			if (!select_prime(sel)) { printf("@INFO prime %ld refused\n", p); continue; }
 			vf_stat_add("x.primes_complete", 1);
-			K.op = "fp_consts"; K.n = 1; mpz_set(K.v[0], sel); vf_run(&K);
 			vf_dom el; vf_dom_init(&el); elem_alphabet(&el, 4);
 			for (long x = 0; x < p; x++) { vf_stat_add("states", 1); mpz_set_si(a, x); run1("fp_unary", sel, a); if (x % 64 == 0 || x > p - 3) for (int j = 0; j < el.n; j++) run2("fp_binary", sel, a, el.v[j]); }
 			vf_dom_clear(&el);
